@@ -106,8 +106,8 @@ def families(tier):
         pre = base + ["0 <= size <= 2", "0 <= x3 < %d" % NOP, "a3 >= -1", "x4 == %d" % NOP, "a4 == 0"]
         parts = parts_product(cb=(3,), x1=(0, 1, 3), x2=range(NOP), x3=(4, 7, 8))
     else:
-        pre = base + ["0 <= size <= 3", "0 <= x3 <= %d" % NOP, "a3 >= -1", "0 <= x4 <= %d" % NOP, "a4 >= -1"]
-        parts = parts_product(cb=(1, 2, 3), x1=range(4), x2=range(NOP), x3=range(NOP + 1))
+        pre = base + ["0 <= size <= 3", "0 <= x3 <= %d" % NOP, "a3 >= -1", "x4 == %d" % NOP, "a4 == 0"]
+        parts = parts_product(cb=(1, 3), x1=range(4), x2=range(NOP))
     return [Family(name="loss", fn="tpl_loss", params=P, pre=pre, parts=parts,
                    twin_pre=["cb == 3", "x1 == 0", "x2 == 0", "x3 == 4", "x4 == %d" % NOP],
                    twin_args=[2, 3, 0, 0, 2, 4, 0, NOP, 0, 5])]
